@@ -60,7 +60,7 @@ class SpecCtx:
 
 
 def check_function(I, target, build, spec, F, name, result_name="result", state_names=None,
-                   drop_contracts=(), merge_defs=True, structural=True, assume=()):
+                   drop_contracts=(), merge_defs=True, structural=True, assume=(), force_sides=False):
     """target: qualname of a function/method in the repo or a callable thunk
     taking the built inputs.  build() -> (args list, kwargs dict) of fresh
     symbolic inputs (called several times; must be deterministic).
@@ -106,6 +106,22 @@ def check_function(I, target, build, spec, F, name, result_name="result", state_
     finally:
         T.SIDE = None
     I.no_contract = saved_nc
+    # arrays are lazy: force the code's results (and the final state of its inputs) NOW, with the side-condition log open and
+    # the path assumed, so that a division / log / index whose operand later cancels out of the normal form is still checked
+    # (opt-in: an operand that cancels inside an UNSELECTED np.where branch -- alpha * (S / n) with alpha = n/(n+r) -- would be
+    # flagged although the selected value is defined; used where the code under contract has no such guarded divisions)
+    for pc, (_k, payload) in results:
+        if payload[0] != "ok" or not force_sides:
+            continue
+        saved_assumed = I.assumed
+        I.assumed = set(pc) | set(assume)
+        T.SIDE = log
+        try:
+            V.force_value(payload[2])
+            V.force_value(list(payload[1][0]) + list(payload[1][1].values()))
+        finally:
+            T.SIDE = None
+            I.assumed = saved_assumed
     for pi, (pc, (_k, payload)) in enumerate(results):
         kind, ins, res = payload
         suffix = "" if len(results) == 1 else ".path%d" % pi
